@@ -91,6 +91,12 @@ R64 = "RModel.Impl.Rep64."
 L2_R64 = ["RModel.Impl.mem_rep64"] + [R64 + n for n in ["toBSet_and2", "toBSet_or2", "toBSet_xor2", "toBSet_andNot2", "wf_and2", "wf_or2", "wf_xor2",
           "wf_andNot2", "toBSet_flip", "toBSet_sflip", "toBSet_addRange", "toBSet_removeRange", "toBSet_ixor",
           "toBSet_flip_viaStatic", "toBSet_addRange_viaStatic"]]
+L2_R64Q = [R64 + n for n in ["toBSet_add", "wf_add", "checkedAdd_snd", "toBSet_addInt", "toBSet_remove", "wf_remove", "checkedRemove_fst",
+           "checkedRemove_snd", "toBSet_addMany", "wf_addMany", "add_frame", "add_bucket", "add_flagged", "remove_frame", "remove_bucket",
+           "card_spec", "isEmpty_spec", "contains_spec", "minimum_spec", "maximum_spec", "rank_spec", "select_spec", "equals_spec",
+           "andCardinality_spec", "orCardinality_spec", "intersects_spec", "toBSet_fastOr", "wf_fastOr", "toBSet_fastAnd", "wf_fastAnd",
+           "fastOr_exact", "fastAnd_exact", "toBSet_parOr", "wf_parOr", "parOr_worker_independent", "parOr_exact"]] + \
+    ["RModel.Impl.Ops32.exact_sound", "RModel.Impl.Ops32.exact_soundBin", "RModel.Impl.R64Par.chunk_partition64", "RModel.Impl.Rep.addManyF_eq"]
 B32 = "RModel.BSI32."
 L2_BSI32_UPD = [B32 + n for n in ["wf_new", "wf_setValue", "getValue_eq", "get_set_same", "get_set_other", "get_foldl_setValue",
                                   "get_clearValues", "get_retainSet", "wf_clearValues", "get_parOr", "get_addIndex", "get_increment"]]
@@ -174,11 +180,12 @@ PROPS = {
             "modules": DEFAULT_MODULES + ["RProofs.Agg", "RProofs.LazyOps", PINS_MOD, "RProofs.ParData", "RProofs.RepBulk"], "owns": set(AGG_OPS) | {"kern", "l2agg", "l2lazy", "l2par", "aggmany", "l2heap"}},
     # C12: schedule independence / termination / no leak (sched), concurrent decoding through the pools (concdec); the
     # protocol theorems are about the transition systems of Impl/Par.lean, pinned to the source by the skeleton obligations
-    "C12": {"suites": [("sched", 1.0), ("l2par", 0.5)], "theorems": PAR + L1_AGG[:3] + L2_PAR,
-            "modules": DEFAULT_MODULES + ["RProofs.Agg", "RProofs.Par", "RProofs.Facts.Skeleton", "RProofs.ParData"], "owns": {"sched", "concdec", "concagg", "concagg64"},
+    "C12": {"suites": [("sched", 1.0), ("l2par", 0.5), ("l2r64qpar", 0.5)], "theorems": PAR + L1_AGG[:3] + L2_PAR +
+            [R64 + "toBSet_parOr", R64 + "parOr_worker_independent", "RModel.Impl.R64Par.chunk_partition64"],
+            "modules": DEFAULT_MODULES + ["RProofs.Agg", "RProofs.Par", "RProofs.Facts.Skeleton", "RProofs.ParData", "RProofs.Rep64ParOr"], "owns": {"sched", "concdec", "concagg", "concagg64"},
             # everything a race-detector job reports is C12's (also on the goroutine-parallel paths of the bit-sliced indexes and
             # of the 64-bit bitmap, whose results are checked by C17/C19/C20); elsewhere C12 owns its own commands only
-            "owns_fn": lambda op, mm, suite: suite.startswith("race:") or op in ("sched", "concdec", "concagg", "concagg64", "l2par"),
+            "owns_fn": lambda op, mm, suite: suite.startswith("race:") or op in ("sched", "concdec", "concagg", "concagg64", "l2par", "l2agg64"),
             "race_suites": [("sched", 1.0), ("bsi", 1.0), ("bsiq", 0.5), ("bsix", 0.3), ("r64", 0.5), ("agg", 0.5)],
             "race_quick": [("sched", 0.3), ("bsi", 0.4), ("bsiq", 0.3), ("r64", 0.3)]},
     "C13": {"suites": [("frozen", 1.0), ("frozenmis", 0.5), ("serall", 1.0)], "corpus": ["corpus/C10/frozen-bitmap4096.txt"],
@@ -197,9 +204,10 @@ PROPS = {
             # in the `xform` suite the only mutations are edits of the RESULT of a static Flip / AddOffset (the operand is re-observed with
             # `dig`): a result that does not behave like a bitmap of its own under those edits is this property's
             "owns_fn": lambda op, mm, suite: op in C16_OWNS or (suite.split(":")[-1] == "xform" and op in {"rem", "remr", "crem", "card", "has", "wf"})},
-    "C17": {"suites": [("r64", 1.0), ("l2r64", 0.6), ("l2iter2", 0.3)], "theorems": L1_ALGEBRA + L1_MUT[:5] + L1_QUERY[:9] + L1_NBR[:4] +
-            ["RModel.Facts.r64Highbits_spec", "RModel.Facts.r64Lowbits_spec"] + L2_R64 + ["RModel.Impl.Rep64.toBSetFast_eq'"],
-            "modules": DEFAULT_MODULES + ["RProofs.Facts.Bits", FASTEQ_MOD, "RProofs.Rep64", "RProofs.Rep64Range", "RProofs.Rep64InPlace", "RProofs.Rep64Witness"], "owns": None},
+    "C17": {"suites": [("r64", 1.0), ("l2r64", 0.6), ("l2iter2", 0.3), ("l2r64q", 0.6)], "theorems": L1_ALGEBRA + L1_MUT[:5] + L1_QUERY[:9] + L1_NBR[:4] +
+            ["RModel.Facts.r64Highbits_spec", "RModel.Facts.r64Lowbits_spec"] + L2_R64 + ["RModel.Impl.Rep64.toBSetFast_eq'"] + L2_R64Q,
+            "modules": DEFAULT_MODULES + ["RProofs.Facts.Bits", FASTEQ_MOD, "RProofs.Rep64", "RProofs.Rep64Range", "RProofs.Rep64InPlace", "RProofs.Rep64Witness",
+                                          "RProofs.Rep64Mut", "RProofs.Rep64Query", "RProofs.Rep64QueryPair", "RProofs.Rep64Agg", "RProofs.Rep64ParOr"], "owns": None},
     "C18": {"suites": [("ser64", 1.0), ("l2ser64", 1.0)],
             "theorems": ["RModel.BSet.canon_ext", "RModel.Facts.r64_cookies_spec",
                          "RModel.Impl.decode_encode", "RModel.Impl.prefix_rejected", "RModel.Impl.decode_no_panic",
